@@ -292,6 +292,7 @@ class TypeInfoVisitor(DispatchingVisitor):
     @property
     def parent_input_type(self) -> Optional[InputObjectType]:
         t = _peek(self._input_type_stack, 2)
+        t = unwrap_type(t) if t is not None else None
         return t if isinstance(t, InputObjectType) else None
 
     @property
